@@ -8,6 +8,7 @@ arm of the WebTransport stream API carries every 62-bit code unchanged and never
 different outcomes.
 -/
 import WtVerif.Driver.StreamMap
+import WtVerif.Driver.StreamLife
 
 namespace Props.C06
 open StreamMap
@@ -60,3 +61,103 @@ theorem reset_never_confused (c : Nat) :
   simp [ofReadError]
 
 end Props.C06
+
+/-! ### the life cycle: a stop is reported with its code by every later call -/
+
+namespace Props.C06.Life
+open StreamLife StreamMap
+
+/-- a stream that was stopped with `c` and neither reset by the application nor torn down -/
+def StoppedWith (c : Nat) (q : Q) : Prop :=
+  q.stopReason = some c ∧ q.resetSent = none ∧ q.released = false ∧ q.lost = false ∧ q.acked = false
+
+/-- events after which the question "what do the calls report" is the property's: calls of the
+application other than `reset`, further STOP_SENDING frames, acknowledgements -/
+def Considered : Ev → Prop
+  | .write | .finish | .stoppedQuery | .peerStop _ | .peerAck => True
+  | .reset _ | .connLost => False
+
+/-- a `write` after the application's own `finish()` is refused by quinn as a closed stream
+whatever the peer did; every other answer names the stop and its code -/
+def Answer (c : Nat) (r : Res) : Prop := saysStopped c r = true ∨ r = .writeErr .notConnected
+
+theorem step_stopped (c : Nat) (q : Q) (e : Ev) (h : StoppedWith c q) (he : Considered e) :
+    StoppedWith c (step false q e).1 ∧ Answer c (step false q e).2 := by
+  obtain ⟨h1, h2, h3, h4, h5⟩ := h
+  cases e with
+  | write =>
+    by_cases hf : q.finished = true
+    · refine ⟨?_, Or.inr ?_⟩ <;>
+        simp [step, qWrite, h1, h2, h3, h4, h5, hf, StoppedWith, ofWriteError]
+    · have hf' : q.finished = false := by simpa using hf
+      refine ⟨?_, Or.inl ?_⟩ <;>
+        simp [step, qWrite, h1, h2, h3, h4, h5, hf', StoppedWith, ofWriteError, saysStopped, q2w]
+  | finish =>
+    by_cases hf : q.finished = true
+    · refine ⟨?_, Or.inl ?_⟩ <;>
+        simp [step, qStopped, h1, h2, h3, h4, h5, hf, StoppedWith, StreamMap.finish, stopped, saysStopped, q2w]
+    · have hf' : q.finished = false := by simpa using hf
+      refine ⟨?_, Or.inl ?_⟩ <;>
+        simp [step, qStopped, h1, h2, h3, h4, h5, hf', StoppedWith, StreamMap.finish, stopped, saysStopped, q2w]
+  | stoppedQuery =>
+    refine ⟨⟨h1, h2, h3, h4, h5⟩, Or.inl ?_⟩
+    simp [step, qStopped, h1, h3, h4, stopped, saysStopped, q2w]
+  | reset c' => exact he.elim
+  | peerStop c' =>
+    refine ⟨?_, Or.inl ?_⟩ <;> simp [step, h1, h2, h3, h4, h5, StoppedWith, saysStopped]
+  | peerAck =>
+    refine ⟨?_, Or.inl ?_⟩ <;> simp [step, h1, h2, h3, h4, h5, StoppedWith, saysStopped]
+  | connLost => exact he.elim
+
+/-- **A stop is sticky**: once the peer has stopped the stream with `c`, every later `write`,
+`finish` and `stopped()` of the application — in any number and order, with acknowledgements
+and repeated STOP_SENDING frames arriving in between — reports `stopped(c)`; the only other
+answer there is is quinn's refusal of a `write` after the application's own `finish()`. -/
+theorem stop_is_sticky (c : Nat) (es : List Ev) (q : Q) (h : StoppedWith c q) (hes : ∀ e ∈ es, Considered e) :
+    ∀ r ∈ (run false q es).2, Answer c r := by
+  induction es generalizing q with
+  | nil => intro r hr; simp [run] at hr
+  | cons e es ih =>
+    intro r hr
+    obtain ⟨hq, ha⟩ := step_stopped c q e h (hes e List.mem_cons_self)
+    simp only [run, List.mem_cons] at hr
+    rcases hr with hr | hr
+    · rw [hr]; exact ha
+    · exact ih _ hq (fun e' he' => hes e' (List.mem_cons_of_mem _ he')) r hr
+
+/-- before its own `finish()` the application's `write` names the stop and its code -/
+theorem write_reports_the_stop (c : Nat) (q : Q) (h : StoppedWith c q) (hf : q.finished = false) :
+    (step false q .write).2 = .writeErr (.stopped c) := by
+  obtain ⟨h1, h2, h3, h4, _⟩ := h
+  simp [step, qWrite, h1, h2, h3, h4, hf, ofWriteError, q2w]
+
+/-- a stop that arrives on a live stream puts it into that state, whatever was written before -/
+theorem peer_stop_enters (c : Nat) (q : Q) (h : q.stopReason = none ∧ q.resetSent = none ∧ q.released = false ∧
+    q.lost = false ∧ q.acked = false) : StoppedWith c (step false q (.peerStop c)).1 := by
+  obtain ⟨h1, h2, h3, h4, h5⟩ := h
+  simp [step, h1, h2, h3, h4, h5, StoppedWith]
+
+/-- **The wrapper adds no transition of its own**, read from the current source: each method of
+`QuicSendStream` / `QuicRecvStream` invokes its own quinn operation and nothing else (`finish`:
+`finish` then `stopped`). -/
+theorem source_wrappers_pass_through :
+    Generated.SEND_WRAPPER_CALLS = [("write", ["0.write"]), ("write_all", ["0.write_all"]),
+      ("finish", ["0.finish", "stopped"]), ("set_priority", ["0.set_priority"]), ("priority", ["0.priority"]),
+      ("stopped", ["0.stopped"]), ("reset", ["0.reset"]), ("id", ["0.id"]), ("quic_stream", []), ("quic_stream_mut", [])] ∧
+    Generated.RECV_WRAPPER_CALLS = [("read", ["0.read"]), ("read_exact", ["0.read_exact"]), ("stop", ["0.stop"]),
+      ("id", ["0.id"]), ("quic_stream", []), ("quic_stream_mut", [])] := by decide
+
+/-- why it matters: a wrapper whose write path answers a stop by resetting the stream loses the
+code one round trip later — `write` turns into NotConnected, `stopped()` into Closed and
+`finish()` succeeds on a stream the peer refused -/
+theorem reset_on_stop_loses_the_code :
+    (run true { stopReason := some 7 } [.write, .peerAck, .write, .stoppedQuery, .finish]).2 =
+      [.writeErr (.stopped 7), .none, .writeErr .notConnected, .stoppedIs .closed, .finishOk] ∧
+    (run false { stopReason := some 7 } [.write, .peerAck, .write, .stoppedQuery, .finish]).2 =
+      [.writeErr (.stopped 7), .none, .writeErr (.stopped 7), .stoppedIs (.stopped 7), .finishErr (.stopped 7)] := by decide
+
+/-! non-vacuity: a live stream, data written, stopped with the largest code -/
+example : StoppedWith (2^62 - 1) (step false {} (.peerStop (2^62 - 1))).1 :=
+  peer_stop_enters _ _ ⟨rfl, rfl, rfl, rfl, rfl⟩
+
+end Props.C06.Life
